@@ -582,8 +582,16 @@ func c03char(c *core.Ctx, r *core.Reporter, m *readerModel) {
 		if okA {
 			// the character itself must be consumed as part of the #\ token, not terminate an empty one
 			if modes := m.after(`#\`); len(modes) == 1 {
+				// consumed: the step is accepted and does not take the machine back between objects (the
+				// terminating action re-dispatches the byte in the initial mode)
 				n, ok := m.step(modes[0], byte(ch), 0)
-				if !ok || len(n) != 1 || n[0] != modes[0] {
+				ends := false
+				for _, t := range n {
+					if t == m.initial {
+						ends = true
+					}
+				}
+				if !ok || len(n) == 0 || ends {
 					okA, why = false, "byte "+quoteByte(byte(ch))+" terminates the empty #\\ token instead of being its character"
 				}
 			}
